@@ -22,11 +22,6 @@ from vt.ref import types as R
 LEVEL = "exploration"
 
 
-def skeleton(t) -> str:
-    """constructor skeleton with leaves kept: used for signatures"""
-    return R.show(t)
-
-
 def relies_on(s, t, leaf) -> bool:
     """Counterfactual: the static acceptance of S -> T disappears when `leaf` inside T is an unrelated class."""
     from pydra.utils.typing import TypeParser
@@ -37,35 +32,80 @@ def relies_on(s, t, leaf) -> bool:
     return False
 
 
-def _hashable(x):
+def _map(val, f):
+    """rebuild `val` with f applied to every leaf / nested container (top-level container kind kept)"""
+    def rec(x, top):
+        if isinstance(x, dict):
+            return f({rec(k, False): rec(e, False) for k, e in x.items()}, top)
+        if isinstance(x, (list, tuple, set, frozenset)):
+            return f(type(x)(rec(e, False) for e in x), top)
+        return f(x, top)
+    return rec(val, True)
+
+
+def _accepted(parser, val) -> bool:
     try:
-        hash(x)
+        parser(val)
         return True
-    except TypeError:
+    except Exception:  # noqa
         return False
 
 
-def classify(s, t, v, val, exc) -> ty.Optional[str]:
-    """Narrow structural classes of (S, T, value) for which the static check and the converter disagree."""
+def _unset_parser(t):
+    """the permissive converter for T with every set[...] read as list[...]"""
+    from pydra.utils.typing import TypeParser
+
+    def unset(x):
+        if x[0] in R.LEAVES:
+            return x
+        return ("list" if x[0] == "set" else x[0],) + tuple(unset(a) for a in x[1:])
+    return TypeParser(R.to_type(unset(t)), superclass_auto_cast=True)
+
+
+def classify(s, t, v, val, exc, parser, env) -> ty.Optional[str]:
+    """Narrow structural classes of (S, T, value) for which the static check and the converter disagree.  Each
+    class is established by a counterfactual: what has to change for the disagreement to disappear."""
     import os
     inside = list(R.flatten(val))
-    # a sequence/set *type* is statically taken for `bytes` (bytes is a Sequence), the converter then calls bytes(v)
+    # a sequence/set *type* is statically taken for `bytes` (bytes is a Sequence), the converter then calls bytes(v):
+    # without the bytes leaf in T the connection is refused statically
     if (R.has_kind(t, "bytes") and relies_on(s, t, "bytes")
             and any(isinstance(x, (list, tuple, set, frozenset)) for x in inside)):
         return "sequence-type-accepted-for-bytes"
-    # str / Path are statically path-like enough for File; whether the file exists is only known at run time
-    if (R.has_kind(t, "File") and relies_on(s, t, "File")
-            and any(isinstance(x, (str, os.PathLike)) and not os.path.isfile(x) for x in inside)):
-        return "path-like-accepted-for-File:not-an-existing-file"
-    # the connection is fine for another member of a Union, but the File member is tried first and its
-    # FileNotFoundError leaves the union instead of moving on to the next member
-    if (isinstance(exc, FileNotFoundError) and R.has_kind(t, "union") and R.has_kind(t, "File")
-            and not relies_on(s, t, "File")):
-        return "union-File-member-missing-path-aborts-other-members"
-    # an Any-typed element may be unhashable, which only set(...) at run time finds out
-    if (R.has_kind(t, "set") and R.has_kind(s, "Any")
-            and any(not _hashable(x) for x in inside[1:])):
-        return "Any-element-accepted-for-set:unhashable"
+    if R.has_kind(t, "File") and any(isinstance(x, (str, os.PathLike)) and not os.path.isfile(x) for x in inside):
+        present = {os.fspath(x) for x in inside if isinstance(x, (str, os.PathLike))}
+        spare = [f for f in env.files if str(f) not in present] or list(env.files)
+
+        def existing(x, top):
+            if isinstance(x, (str, os.PathLike)) and not os.path.isfile(x):
+                spare.append(spare.pop(0))  # distinct replacements, so that sets keep their size
+                return type(x)(spare[-1])
+            return x
+        try:
+            val2 = _map(val, existing)
+        except Exception:  # noqa
+            val2 = None
+        if val2 is not None and (_accepted(parser, val2) or _accepted(_unset_parser(t), val2)):
+            # the same value naming existing files is accepted (possibly once hashability, judged below, is set aside)
+            if relies_on(s, t, "File"):
+                # ... and the connection is only accepted because str / Path are path-like enough for File
+                return "path-like-accepted-for-File:not-an-existing-file"
+            if isinstance(exc, FileNotFoundError) and R.has_kind(t, "union"):
+                # ... and another Union member takes S, but the File member is tried first and its
+                # FileNotFoundError leaves the union instead of moving on to the next member
+                return "union-File-member-missing-path-aborts-other-members"
+    # set(...) of unhashable elements: with every set[...] of T read as list[...] the same value is accepted, i.e.
+    # hashability is the only obstacle
+    if R.has_kind(t, "set"):
+        if _accepted(_unset_parser(t), val):
+            if any(x[0] == "set" and x[1][0] in ("list", "dict", "set", "mio") for x in R.subterms(t)):
+                # the declared element type of the set is itself unhashable: no non-empty value can ever be stored
+                return "set-of-unhashable-element-type"
+            if R.has_kind(s, "Any"):
+                # an Any-typed upstream element may be unhashable, which only set(...) at run time finds out
+                return "Any-element-accepted-for-set:unhashable"
+            # the upstream element type is an unhashable container type, the input is set[Any]
+            return "unhashable-element-type-accepted-for-set-of-Any"
     return None
 
 
@@ -73,7 +113,7 @@ def conforming(s, vals_built):
     return [(v, val) for v, val in vals_built if R.conforms(val, s) is None]
 
 
-def pair_case(part, s, t, vals_s, parsers):
+def pair_case(part, s, t, vals_s, parsers, env):
     """vals_s: [(vterm, value)] conforming to s.  Returns True if the pair is statically accepted."""
     from pydra.utils.typing import TypeParser
     cov = part.coverage
@@ -119,7 +159,7 @@ def pair_case(part, s, t, vals_s, parsers):
         except Exception as e2:  # noqa
             exc2 = e2
         part.violation(
-            classify(s, t, v, val, exc2),
+            classify(s, t, v, val, exc2, permissive, env),
             dict(S=R.tj(s), T=R.tj(t), value=R.tj(v)),
             f"connection {R.show(s)} -> {R.show(t)} passes check_type, but the run-time value {val!r} (conforms to "
             f"{R.show(s)}) is rejected: {type(exc2).__name__}: {str(exc2)[:200]}")
@@ -139,7 +179,7 @@ def work(part, chunk):
         vals_s = conforming(s, vals_built)
         nacc = 0
         for t in TARGETS[tdepth]:
-            nacc += bool(pair_case(part, s, t, vals_s, parsers))
+            nacc += bool(pair_case(part, s, t, vals_s, parsers, env))
         last = dict(S=R.show(s), targets=len(TARGETS[tdepth]), accepted=nacc, conforming_values=len(vals_s))
     if last:
         part.sample(last)
@@ -172,6 +212,7 @@ def run(ctx):
         "an int conforms to float; MultiInputObj[T] values are lists of T",
     ]
     pmap(ctx, work, items, chunk=max(1, len(items) // (ctx.nproc * 12)))
+    ctx.violations = R.interleave(ctx.violations)
 
 
 def replay(ctx, case):
@@ -182,5 +223,5 @@ def replay(ctx, case):
     val = R.build(v, env)
     if R.conforms(val, s) is not None:
         return None
-    pair_case(part, s, t, [(v, val)], {})
+    pair_case(part, s, t, [(v, val)], {}, env)
     return part.violations[0][2] if part.violations else None
